@@ -52,7 +52,7 @@ ASSUMPTIONS = [
     "erase_lanelet_network is exercised only through replace_lanelet_network (an empty replacement network included)",
 ]
 
-POOL = list(range(1, 15))
+POOL = list(range(0, 14))   # 0 is a valid id (natural number)
 OBST = ("static", "dynamic", "phantom", "env")
 NETK = ("lanelet", "sign", "light", "inter", "incoming")
 
